@@ -10,6 +10,7 @@ mod c07;
 mod c08;
 mod c09;
 mod c11;
+mod c12;
 mod c13;
 mod c14;
 mod c18;
@@ -24,6 +25,10 @@ fn main() {
     let args: Vec<String> = std::env::args().collect();
     if args.get(1).map(String::as_str) == Some("c19_child") {
         c19::child();
+        return;
+    }
+    if args.get(1).map(String::as_str) == Some("c12_child") {
+        c12::child();
         return;
     }
     if args.get(1).map(String::as_str) == Some("lt_child") {
@@ -51,6 +56,7 @@ fn main() {
         "c19" => cases.iter().map(c19::run).collect(),
         "fsops" => cases.iter().map(fsops::run).collect(),
         "c11" => cases.iter().map(c11::run).collect(),
+        "c12" => cases.iter().map(c12::run).collect(),
         "c13" => cases.iter().map(c13::run).collect(),
         "c14" => cases.iter().map(c14::run).collect(),
         "c18" => cases.iter().map(c18::run).collect(),
